@@ -468,18 +468,27 @@ def check_graph(desc: dict[str, Any], col: common.Collector, apps: list[Any], tr
             from pytato import transform as tr
             col.count("mon.collision_oracle")
             wit = {"desc": desc, "duplicated": type(v).__name__}
-            try:
-                tr.CopyMapper()(gd)
-                col.violation(f"C13:collision-hidden:CopyMapper:{type(v).__name__}",
-                              "a graph with two structurally equal distinct nodes went through "
-                              "a collision-checking mapper without the cache-collision error",
-                              wit)
-            except ValueError as e:
-                if "collision" not in str(e) and "duplicate" not in str(e):
-                    col.violation(f"C13:collision-wrong-error:{type(e).__name__}",
-                                  str(e)[:120], wit)
-            except Exception as e:  # noqa: BLE001
-                col.violation(f"C13:collision-wrong-error:{type(e).__name__}", str(e)[:120], wit)
+            checking = {
+                "CopyMapper": lambda: tr.CopyMapper()(gd),
+                "map_and_copy": lambda: tr.map_and_copy(gd, lambda t_: t_),
+                "InputGatherer": lambda: tr.InputGatherer()(gd),
+                "DependencyMapper": lambda: tr.DependencyMapper()(gd),
+            }
+            for mname, run_ in checking.items():
+                try:
+                    run_()
+                    col.violation(f"C13:collision-hidden:{mname}:{type(v).__name__}",
+                                  "a graph with two structurally equal distinct nodes went "
+                                  f"through {mname} (a collision-checking mapper) without the "
+                                  "cache-collision error", wit)
+                except ValueError as e:
+                    if "collision" not in str(e) and "duplicate" not in str(e):
+                        col.violation(f"C13:collision-wrong-error:{mname}:{type(e).__name__}",
+                                      str(e)[:120], wit)
+                except Exception as e:  # noqa: BLE001
+                    if not (mname != "CopyMapper" and isinstance(e, NotImplementedError)):
+                        col.violation(f"C13:collision-wrong-error:{mname}:{type(e).__name__}",
+                                      str(e)[:120], wit)
             try:
                 dd = tr.deduplicate(gd)
                 if reflect.duplicate_groups(dd, reflect.MAPPER_INVISIBLE) > 0:
